@@ -19,6 +19,7 @@ func c32(p *an.Prog, r *an.R, tier string) {
 	r.Rule("C32.R2", "every path to the final moveAll(trashDir, …)/maybeSetTombstone passes the loop that deletes all assigned repositories from the candidate map")
 	r.Rule("C32.R3", "inside the loop over assigned repositories a repository found in the trash is restored with moveAll(indexDir, …)")
 	c32Vacuum(p, r)
+	c32Compound(p, r)
 	f := p.Func(isrv, "cleanup")
 	d := p.Decl(f)
 	removeAll := p.Func(isrv, "removeAll")
@@ -352,6 +353,66 @@ func c32Vacuum(p *an.Prog, r *an.R) {
 		return true
 	})
 	r.Floor("C32.R4.removals", 1, n)
+}
+
+// c32Compound: outside error handling, cleanup must not delete a shard it has
+// just recognised as a compound shard - other, assigned repositories live in it.
+func c32Compound(p *an.Prog, r *an.R) {
+	r.Rule("C32.R5", "in cleanup, moveAll and maybeSetTombstone no shard file is deleted on a path where the shard was recognised as a compound shard (HasPrefix(.., \"compound-\")), except inside the handling of an error")
+	rm, rmAllOS := p.ExtFunc("os", "Remove"), p.ExtFunc("os", "RemoveAll")
+	removeAll := p.Func(isrv, "removeAll")
+	if !r.Anchor(rm != nil && rmAllOS != nil && removeAll != nil, "os.Remove / "+isrv+".removeAll") {
+		return
+	}
+	n := 0
+	for _, name := range []string{"cleanup", "moveAll", "maybeSetTombstone"} {
+		f := p.Func(isrv, name)
+		d := p.Decl(f)
+		if !r.Anchor(d != nil, isrv+"."+name) {
+			continue
+		}
+		r.Fn(an.FuncName(f))
+		info := d.Pkg.TypesInfo
+		g := an.NewG(info, d.Decl.Body)
+		isCompoundFact := func(cond ast.Expr, truth bool) bool {
+			neg := false
+			e := ast.Unparen(cond)
+			if u, ok := e.(*ast.UnaryExpr); ok && u.Op == token.NOT {
+				neg = true
+				e = ast.Unparen(u.X)
+			}
+			c, ok := e.(*ast.CallExpr)
+			if !ok || len(c.Args) != 2 {
+				return false
+			}
+			cal := an.Callee(info, c)
+			if cal == nil || cal.Pkg() == nil || cal.Pkg().Path() != "strings" || cal.Name() != "HasPrefix" {
+				return false
+			}
+			if sv, ok := an.StringConst(info, c.Args[1]); !ok || sv != "compound-" {
+				return false
+			}
+			return truth != neg
+		}
+		k := 0
+		for _, l := range g.Locs(func(ast.Node) bool { return true }) {
+			if len(an.CallsTo(info, g.Node(l), false, rm, rmAllOS, removeAll)) == 0 {
+				continue
+			}
+			if !g.GuardedBy(l, isCompoundFact, nil) {
+				continue
+			}
+			k++
+			n++
+			key := fmt.Sprintf("%s.%s/removal-of-a-compound-shard#%d", isrv, name, k)
+			if inErrorCleanup(g, info, l) {
+				r.Except(key, "inside error handling (the tombstone could not be written): faults are outside C32's quantifier")
+				continue
+			}
+			r.Bad("C32.R5", key, g.Node(l).Pos(), "the whole compound shard is deleted because one repository in it has to go: every other repository in that shard, assigned ones included, disappears from the index")
+		}
+	}
+	r.Floor("C32.R5.compound-removals", 1, n)
 }
 
 func c32Kind(info *types.Info, n ast.Node, tomb *types.Func) string {
